@@ -1,10 +1,13 @@
 // c13: interrupts delivered while interpreted code runs (fast/code.go exec/reExecWithFlags polling, Interp.Interrupt).
 // Part 1 (deterministic): a compiled hook delivers ir.Interrupt at its k-th call for every k <= K and counts later calls;
-//   direct oracle: the evaluation ends with panic(base.SigInterrupt), at most 14 later (non-deferred) hook calls,
-//   Run state clean afterwards, evaluation battery = uninterrupted interpreter; correspondence: the exact count of
-//   later calls equals the Coq model's (cases_*.v).
+//
+//	direct oracle: the evaluation ends with panic(base.SigInterrupt), at most 14 later (non-deferred) hook calls,
+//	Run state clean afterwards, evaluation battery = uninterrupted interpreter; correspondence: the exact count of
+//	later calls equals the Coq model's (cases_*.v).
+//
 // Part 2 (asynchronous): another goroutine delivers the interrupt after a random delay into tight loops without
-//   calls: the evaluation must end with the interrupt panic within a time bound; same battery.
+//
+//	calls: the evaluation must end with the interrupt panic within a time bound; same battery.
 package main
 
 import (
@@ -53,18 +56,20 @@ func shapes(rng *vh.Rng, nRandom int) []shape {
 		directShape("for{g(3)} g recursive", L.B(L.Forever(L.Call(0, L.Const(3)))), L.B(H, L.IfPos(L.Call(0, L.Dec())), H)),
 		callShape("f(){for{g();hook}} g loops", 0, 0, L.B(L.Forever(L.Call(1, L.Const(0)), H)), L.B(L.ForLt(4, H, I), H)),
 		callShape("g has for3", 0, 0, L.B(L.Forever(L.Call(1, L.Const(9)), H)), L.B(L.For3(3, H), G)),
-		callShape("deferred closure loops", 0, 0, L.B(H, L.DeferFunc(L.Const(0), L.Forever(H)))),
-		callShape("deferred named loops", 0, 0, L.B(L.DeferCall(1, L.Const(0)), H, H), L.B(L.Forever(I, H))),
+		// no hook() before the deferred loop starts: an interrupt delivered earlier aborts the function body and the
+		// deferred loop then runs (as Go's panic semantics demand) until a second interrupt
+		callShape("deferred closure loops", 0, 0, L.B(G, L.DeferFunc(L.Const(0), L.Forever(H)))),
+		callShape("deferred named loops", 0, 0, L.B(L.DeferCall(1, L.Const(0)), G, G), L.B(L.Forever(I, H))),
 		callShape("defer hook; loop", 0, 0, L.B(L.DeferHook(), L.Forever(H))),
 		callShape("hook; defer; defer; loop", 0, 0, L.B(H, L.DeferHook(), G, L.DeferFunc(L.Same(), H, H), L.Forever(H, G))),
 		callShape("defers inside the loop", 0, 0, L.B(L.Forever(I, L.IfMod(7, 0, L.B(L.DeferHook()), nil), H))),
 		callShape("defers inside the loop 2", 0, 0, L.B(L.Forever(I, H, L.IfMod(4, 1, L.B(L.DeferHook(), L.DeferHook()), L.B(G))))),
 		callShape("loop calls function with defers", 0, 0, L.B(L.Forever(L.Call(1, L.Const(0)), H)), L.B(L.DeferHook(), H, L.DeferFunc(L.Const(0), H))),
 		directShape("top-level block with defer", L.B(L.DeferHook(), L.Forever(H, G))),
-		directShape("top-level deferred closure loops", L.B(H, L.DeferFunc(L.Const(0), L.Forever(G, H)))),
+		directShape("top-level deferred closure loops", L.B(G, L.DeferFunc(L.Const(0), L.Forever(G, H)))),
 		callShape("recursion", 0, 0, L.B(H, L.Call(0, L.Inc_()))),
 		callShape("recursion with work", 0, 0, L.B(H, G, L.IfMod(3, 0, L.B(H), nil), L.Call(0, L.Inc_()))),
-		callShape("mutual recursion", 0, 0, L.B(H, L.Call(1, L.Inc_())), L.B(G, H, H, L.Call(0, L.Same()))),
+		callShape("call chain in recursion", 0, 0, L.B(H, L.Call(1, L.Const(2)), L.Call(0, L.Inc_())), L.B(G, H, L.IfPos(L.Call(1, L.Dec())), H)),
 		callShape("recursion with defers", 0, 0, L.B(L.IfMod(3, 0, L.B(L.DeferHook()), nil), H, L.Call(0, L.Inc_()))),
 	}
 	// random loop bodies
@@ -120,8 +125,8 @@ type caseIn struct {
 
 func mkProbe(sh shape) *L.Probe {
 	pr := L.NewProbe()
-	for _, d := range sh.Decls {
-		pr.Ir.Eval(d)
+	for i := len(sh.Decls) - 1; i >= 0; i-- { // callees first: a function may only call itself or higher-numbered functions
+		pr.Ir.Eval(sh.Decls[i])
 	}
 	return pr
 }
@@ -129,7 +134,7 @@ func mkProbe(sh shape) *L.Probe {
 var cleanSnap = func() L.Snap { return L.NewProbe().Snapshot() }()
 
 // fields of the Run record that must be back to their idle values after an evaluation was aborted by an interrupt
-// (Interrupt and Sync are excluded: see coq/C12/Props.v C12_interrupt_field_dead / prepareEnv)
+// (Interrupt, Sync, InstallDefer are excluded: written before every read, see coq/C12/Props.v; prepareEnv clears Sync)
 func snapProblems(s L.Snap) []string {
 	var out []string
 	c := cleanSnap
@@ -142,7 +147,6 @@ func snapProblems(s L.Snap) []string {
 	chk("Signals.Debug", s.Debug, c.Debug)
 	chk("Signals.Async", s.Async, c.Async)
 	chk("CurrEnvNil", s.CurrEnvNil, c.CurrEnvNil)
-	chk("InstallDeferNil", s.InstallNil, c.InstallNil)
 	chk("DeferOfFunNil", s.DeferOfFunNil, c.DeferOfFunNil)
 	chk("PanicFunNil", s.PanicFunNil, c.PanicFunNil)
 	chk("DebugDepth", s.DebugDepth, c.DebugDepth)
